@@ -5,13 +5,15 @@ set -u
 . "$(dirname "$0")/env.sh"
 cd "$VERIF_DIR/sim" || exit 2
 case "$1" in
- plain) go build -tags verif -o "$VERIF_BUILD/runner" ./cmd/runner 2> "$VERIF_BUILD/build-plain.log" || { cat "$VERIF_BUILD/build-plain.log" >&2; echo "BUILD-ERROR: runner does not build against /repo" >&2; exit 2; } ;;
+ plain)
+  sed "s#=> /repo#=> $VERIF_REPO#" go.mod > "$VERIF_BUILD/go.plain.mod" && cp go.sum "$VERIF_BUILD/go.plain.sum"
+  go build -tags verif -modfile="$VERIF_BUILD/go.plain.mod" -o "$VERIF_BUILD/runner" ./cmd/runner 2> "$VERIF_BUILD/build-plain.log" || { cat "$VERIF_BUILD/build-plain.log" >&2; echo "BUILD-ERROR: runner does not build against /repo" >&2; exit 2; } ;;
  race)
   # C20 builds against a scratch copy of /repo's working tree in which a
   # simulation point is inserted before every statement of the packages under
   # test (same line, so reported line numbers match /repo); /repo is not touched.
   INST="$VERIF_BUILD/repo-inst"
-  mkdir -p "$INST" && rsync -a --delete --exclude .git /repo/ "$INST/" || { echo "BUILD-ERROR: cannot copy /repo" >&2; exit 2; }
+  mkdir -p "$INST" && rsync -a --delete --exclude .git "$VERIF_REPO/" "$INST/" || { echo "BUILD-ERROR: cannot copy /repo" >&2; exit 2; }
   go build -o "$VERIF_BUILD/instrument" ./cmd/instrument 2> "$VERIF_BUILD/build-race.log" || { cat "$VERIF_BUILD/build-race.log" >&2; exit 2; }
   "$VERIF_BUILD/instrument" 'simPoint(20, nil); ' "$INST/bloom/filter.go" "$INST/bloom/merkleblock.go" > "$VERIF_BUILD/instrument.log" 2>&1 \
     && "$VERIF_BUILD/instrument" 'simPoint(20); ' "$INST/gcs/gcs.go" >> "$VERIF_BUILD/instrument.log" 2>&1 \
